@@ -139,6 +139,8 @@ Definition tr12_step (t : tr12) (o : aop) (r : ares) : tr12 :=
   | ASubscribe ns c, AOk => with_subs ns (subs_of t ns ++ [c])
   | AUnsubscribe ns c, AOk => with_subs ns (filter (fun x => negb (x =? c)) (subs_of t ns))
   | AClose ns, _ => if closes ns then with_subs ns [] else mkT12 (t_subs t) (t_dead t) (t_pol t) t14'
+  (* a dropped document loses its download policy with everything else (C16) *)
+  | ADrop ns, AOk => mkT12 (StoreProps.assoc_set ns [] (t_subs t)) (t_dead t) (StoreProps.assoc_del ns (t_pol t)) t14'
   | ADrop ns, _ => if closes ns then with_subs ns [] else mkT12 (t_subs t) (t_dead t) (t_pol t) t14'
   | ADropReceiver c, _ => mkT12 (t_subs t) (c :: t_dead t) (t_pol t) t14'
   | ASetPolicy ns p, AOk => mkT12 (t_subs t) (t_dead t) (StoreProps.assoc_set ns p (t_pol t)) t14'
